@@ -30,6 +30,16 @@ def scenarios(wd):
     S["S5-bin-devfull"] = ["new 0 int", "asm 0 %s" % common.hx(first), "sumoff 0", "@", "bin 0 /dev/full", "sum 0 0 300", "del 0"]
     S["S6-fail-then-continue-bin"] = ["new 0 int", "asm 0 %s" % common.hx(first), "sumoff 0", "asm 0 %s" % common.hx("bogus"), "setoff 0 300", "@", "asm 0 %s" % common.hx(big),
                                       "sum 0 0 300", "setoff 0 300", "bin 0 %s" % os.path.join(wd, "c17-out6.bin"), "dump 0 0 300", "del 0"]
+    # a long assembly (200 kB in ten calls, about 33 growths): growth behaviour that only changes beyond some size, and what
+    # happens when assembly simply CONTINUES after the refused growth (each later part must land intact at its place)
+    parts = [long_prog(20000, 11 + 3 * i) for i in range(10)]
+    cmds = ["new 0 int", "asm 0 %s" % common.hx(first), "sumoff 0", "@"]
+    for i, pt in enumerate(parts):
+        # every part is assembled, the offset put back to where the part started, and the part assembled again: what a caller does
+        # who retries after a failure (without a failure the second call rewrites the same bytes)
+        cmds += ["asm 0 %s" % common.hx(pt), "setoff 0 %d" % (300 + 20000 * i), "asm 0 %s" % common.hx(pt)]
+    cmds += ["sum 0 %d %d" % (300 + 20000 * i, 300 + 20000 * (i + 1)) for i in range(10)] + ["sum 0 0 300", "del 0"]
+    S["S7-grow-long-continue"] = cmds
     return S
 
 
@@ -121,14 +131,26 @@ def run(tier):
                 break
         if s in MUST_REPORT and not reported:
             bad = ("failure-not-reported", "no call after the injected %s failure returned NULL/EXIT_FAILURE: %s" % (s, " | ".join(recs[at + 1:at + 5])))
-        # earlier code intact
+        # earlier code intact; and code assembled by the calls after the failing one is where it belongs
         if not bad and "sumoff 0" in cmds[:at]:
             before = rec_of(cmds.index("sumoff 0")).split()
+            # a part whose RETRY failed as well is exempt (partial code), every other fingerprint must equal the fault-free run
+            exempt = set()
+            pos = 300
             for i in range(at + 1, len(cmds)):
-                if cmds[i].startswith("sum 0 0 300"):
+                if cmds[i].startswith("asm 0 ") and cmds[i - 1].startswith("setoff 0 "):
+                    start = int(cmds[i - 1].split()[2])
+                    if rec_of(i).split()[1] != "0":
+                        exempt.add((start, start + 20000))
+            for i in range(at + 1, len(cmds)):
+                if cmds[i].startswith("sum 0 "):
+                    lo, hi = int(cmds[i].split()[2]), int(cmds[i].split()[3])
+                    if (lo, hi) in exempt:
+                        continue
                     full = ref[n][1 + i].split()[1]
                     if rec_of(i).split()[1] != full:
-                        bad = ("earlier-code-corrupted", "fingerprint of [0,300) %s != %s" % (rec_of(i).split()[1], full))
+                        bad = ("earlier-code-corrupted" if hi <= 300 else "code-after-failure-misplaced", "fingerprint of [%d,%d) %s != %s" % (lo, hi, rec_of(i).split()[1], full))
+                        break
         # bin success => file complete
         if not bad:
             for i in range(at + 1, len(cmds)):
@@ -161,7 +183,7 @@ def run(tier):
                 v.violation({"key": n + " (no injection)", "fam": "fault", "scenario": n}, "bin-success-on-full-device", b)
             else:
                 v.distinct((n, "real-ENOSPC"))
-    v.cov["rule"] = ("fault enumeration: for each of %d API scenarios (create on internal/caller buffer; 20 kB assembly with 3 growths in plain / fitting / counting mode; file and file-counting assembly of a 3-page file; "
+    v.cov["rule"] = ("fault enumeration: for each of %d API scenarios (create on internal/caller buffer; 20 kB assembly with 3 growths in plain / fitting / counting mode; a 200 kB assembly in ten calls (about 33 growths) that continues after the refused growth; file and file-counting assembly of a 3-page file; "
                      "binary output to a file and to /dev/full; fail-then-continue-then-bin) a counting run records how often each of malloc, mmap, mremap, munmap, open, fstat, fopen, fwrite, fclose is called after the arming "
                      "point, then one run per (symbol, k) makes exactly that call fail with a realistic errno. Checked: no crash/sanitizer report, the failure is reported by NULL/EXIT_FAILURE (munmap: no crash only), "
                      "[0,300) assembled earlier is intact, the instance can be destroyed, bin EXIT_SUCCESS only with a complete file" % len(names))
